@@ -275,9 +275,10 @@ func c12PrefixMaps() []prefixMap {
 
 func checkC12(c *Ctx) {
 	c.Anchors = []string{"derive"}
-	c.Run.Rule = "cases = generated packages (type-directed plugins and list helpers over supported shapes, so that helpers are requested across plugins) x prefix maps (4 global -prefix values incl. one containing 'derive' and an exported one; per-plugin overrides; 9 maps that nest one plugin's prefix inside another's; both flags together incl. an override value containing 'derive') x plugin registration orders (identity + seeded permutations through hook H1). Per case the default-named package is generated with default flags, the renamed package with the custom flags; oracle: (a) for a global -prefix the custom output equals the default output with the prefix substituted, byte for byte; (b) always: both outputs are the same set of function declarations up to a renaming discovered by simultaneous traversal from the user's call sites (token-exact bodies, equal imports, no unreachable function); (c) the custom package compiles. distinct_nontrivial = distinct (prefix map, registration order, package)"
+	c.Run.Rule = "cases = generated packages (type-directed plugins and list helpers over supported shapes, so that helpers are requested across plugins) x prefix maps (4 global -prefix values incl. one containing 'derive' and an exported one; per-plugin overrides; 9 maps that nest one plugin's prefix inside another's; both flags together incl. an override value containing 'derive') x plugin registration orders (identity + seeded permutations through hook H1). Per case the default-named package is generated with default flags, the renamed package with the custom flags; oracle: (a) for a global -prefix the custom output equals the default output with the prefix substituted, byte for byte; (b) always: both outputs are the same set of function declarations up to a renaming discovered by simultaneous traversal from the user's call sites (token-exact bodies, equal imports, no unreachable function); (c) the custom package compiles; (d) a call the owner of its longest matching prefix refuses stays refused when another plugin's prefix is nested inside that prefix (tuple, which accepts anything, nested under each of the other 32 plugins, plus clone/deepcopy, fmap/traverse, filter/takewhile). distinct_nontrivial = distinct (prefix map, registration order, package)"
 	c.Run.Assume = []string{"'up to the choice of helper names' = isomorphism of the generated functions under a consistent bijective renaming", "registration orders are produced by the verif-tagged hook H1 (VERIF_PLUGIN_ORDER)"}
 	c.Run.Floor = 20
+	c.c12RefusalPreserved()
 	// packages: reuse C01's type-directed generator (a few batches)
 	sel := shapeSel{Forms: []string{"top", "field"}, QuickDeep: 16, QuickRand: 6, ThorRand: 60, BatchSize: 12,
 		Ops: func(t *pgen.Type, form string) []string { return []string{"x"} }}
@@ -536,3 +537,70 @@ func use() {
 	deriveDeepCopy(&T{}, &T{})
 }
 `
+
+// c12RefusalPreserved: a call that the plugin owning its (longest matching) prefix refuses must stay
+// refused when another plugin's prefix is nested inside that prefix: it is never handed to the plugin
+// with the shorter prefix. Tuple accepts any argument list, so it is the universal shorter candidate;
+// two natural pairs (clone under deepcopy, fmap under traverse) are added.
+func (c *Ctx) c12RefusalPreserved() {
+	type job struct {
+		owner, short, prefix, src string
+		order                     string
+	}
+	var jobs []job
+	decl := "package p\n\ntype Rec struct{ L []int }\n\nfunc itoa(x int) string { return \"\" }\n\n"
+	for owner, px := range pluginPrefixes {
+		if owner == "tuple" {
+			continue
+		}
+		// (1, "x") is no valid argument list of any plugin but tuple
+		jobs = append(jobs, job{owner: owner, short: "tuple", prefix: px[:len(px)-2], src: decl + "func use() { " + px + "(1, \"x\") }\n"})
+	}
+	jobs = append(jobs, job{owner: "deepcopy", short: "clone", prefix: "deriveDeep", src: decl + "func use(r *Rec) { deriveDeepCopy(r) }\n"})
+	jobs = append(jobs, job{owner: "traverse", short: "fmap", prefix: "deriveTra", src: decl + "func use(xs []int) { deriveTraverse(itoa, xs) }\n"})
+	jobs = append(jobs, job{owner: "takewhile", short: "filter", prefix: "deriveTake", src: decl + "func use(xs []int) { deriveTakeWhile(xs) }\n"})
+	n := len(jobs)
+	for i := 0; i < n; i++ {
+		if i%3 == int(c.Seed%3) || !c.Quick {
+			j := jobs[i]
+			j.order = fmt.Sprint(c.Seed*100 + int64(i) + 1)
+			jobs = append(jobs, j)
+		}
+	}
+	type res struct{ def, cus grun.Result }
+	outs := make([]res, len(jobs))
+	parallel(len(jobs), 14, func(i int) {
+		j := jobs[i]
+		dir := c.Env.Dir("c12-refuse")
+		defer os.RemoveAll(dir)
+		grun.WriteTree(dir, map[string]string{"go.mod": pgen.GoMod, "p/p.go": j.src})
+		outs[i].def = c.Goderive(dir, []string{"./p"})
+		os.Remove(filepath.Join(dir, "p", "derived.gen.go"))
+		var env []string
+		if j.order != "" {
+			env = append(env, "VERIF_PLUGIN_ORDER="+j.order)
+		}
+		outs[i].cus = c.Goderive(dir, []string{"-pluginprefix=" + j.short + "=" + j.prefix, "./p"}, env...)
+	})
+	for i, j := range jobs {
+		o := outs[i]
+		if o.def.Exit == 0 {
+			c.Run.Count("refusal_cases_accepted_by_default", 1)
+			continue
+		}
+		c.Run.Eval(1)
+		key := fmt.Sprintf("refusal|owner=%s|short=%s", j.owner, j.short)
+		switch {
+		case o.cus.Crash != "":
+			c.Run.Violate(report.Violation{Key: key + "|crash", Summary: "custom run crashed", Detail: trunc(o.cus.Stderr, 1200), Files: map[string]string{"tree/go.mod": pgen.GoMod, "tree/p/p.go": j.src}})
+		case o.cus.Exit == 0:
+			c.Run.Violate(report.Violation{Key: key + "|refused-call-handed-to-shorter-prefix",
+				Summary: fmt.Sprintf("with -pluginprefix=%s=%s (order %q) a call that %s refuses by default is accepted", j.short, j.prefix, j.order, j.owner),
+				Detail:  "default run: " + firstLine(o.def.Stderr) + "\ncustom run: exit 0", Files: map[string]string{"tree/go.mod": pgen.GoMod, "tree/p/p.go": j.src},
+				Replay: replayScript("-pluginprefix="+j.short+"="+j.prefix+" ./p && exit 1", "exit 0")})
+		default:
+			c.Run.Distinct(key)
+			c.Run.Count("refusal_preserved", 1)
+		}
+	}
+}
